@@ -419,3 +419,39 @@ def prove(chk, prop_id, modules, theorems, role="theorem"):
         else:
             chk.obligation(t, role, True, "axioms: %s" % ",".join(ax))
     return allok, failing, aout
+
+
+# ----------------------------------------------------------------------------- label canonicalisation
+
+_LABEL_RE = re.compile(r"(?<![\w])(?:lab(\d+)|([A-Za-z_]\w*?)_(\d+)(?=(?:_\w+)?(?!\w)))")
+
+
+def canon_labels(text, type_names):
+    """Renumber the labels drawn from the process-global fresh_label() counter (`lab<N>`,
+    `<MangledType>_<N>`, `<MangledType>_<N>_<xtor>`) by order of first occurrence, so that texts
+    produced with different counter starts can be compared.  Only prefixes that are mangled names of
+    declared types are touched, so user identifiers containing digits are left alone."""
+    order = {}
+
+    def repl(m):
+        if m.group(1) is not None:
+            n = m.group(1)
+            pre = "lab"
+        else:
+            if m.group(2) not in type_names:
+                return m.group(0)
+            n = m.group(3)
+            pre = m.group(2) + "_"
+        if n not in order:
+            order[n] = str(len(order) + 1)
+        return pre + "#" + order[n]
+
+    return _LABEL_RE.sub(repl, text)
+
+
+def mangled_type_names(*dumps):
+    names = set()
+    for d in dumps:
+        for m in re.finditer(r'\(type \(id "([^"]+)" \d+\)', d):
+            names.add(m.group(1).replace("[", "_").replace(", ", "_").replace("]", ""))
+    return names
